@@ -335,6 +335,13 @@ func constify(t *rapid.T, f *File, auto AutoCfg) []cdef {
 				continue
 			}
 			(*s.toks)[s.idx] = d.name
+			if rapid.IntRange(0, 3).Draw(t, "amongothers") == 0 {
+				// the constant is one token among several: BASE + K
+				nt := append([]string{}, (*s.toks)[:s.idx]...)
+				nt = append(nt, "BASE", "+", d.name)
+				nt = append(nt, (*s.toks)[s.idx+1:]...)
+				*s.toks = nt
+			}
 		}
 	}
 	// some commands get richer arguments: several tokens, nested parentheses, a constant directly before '('
